@@ -301,6 +301,12 @@ fn run_op(op: &Value, toks: &[Tok], unverified: bool) -> Result<Tok, String> {
                 _ => unreachable!(),
             }
         }
+        // the first step of the third-party protocol alone
+        "request" => match (&src_u, src) {
+            (Some(u), _) => u.third_party_request().map_err(e).and_then(|_| Err::<Tok, String>("REQUEST-GRANTED".to_string())),
+            (None, Tok::V(b)) => b.third_party_request().map_err(e).and_then(|_| Err::<Tok, String>("REQUEST-GRANTED".to_string())),
+            _ => unreachable!(),
+        },
         "seal" => match (&src_u, src) {
             (Some(u), _) => u.seal().map(Tok::U).map_err(e),
             (None, Tok::V(b)) => b.seal().map(Tok::V).map_err(e),
@@ -396,12 +402,13 @@ fn replay_honest(c: &mut Concretiser, idx: usize, case: &Value) -> Value {
                     _ => problems.push(format!("mask {mask}: sealed token or its source not admitted")),
                 }
                 for unv in [false, true] {
-                    for name in ["append", "append3p", "seal"] {
+                    for name in ["append", "append3p", "request", "seal"] {
                         let op = json!({"op": name, "from": i + 1, "nk": {"id": "KX", "alg": "ed"}, "ek": {"id": "E", "alg": "ed"}, "p": if name == "append3p" {"T1"} else {"P1"}});
                         let r = util::catch(|| run_op(&op, &real, unv)).unwrap_or_else(|p| Err(format!("PANIC {p}")));
                         match r {
                             Ok(_) => problems.push(format!("mask {mask}: {name} on sealed token {i} (unverified={unv}) succeeded")),
                             Err(e) if e.starts_with("PANIC") => problems.push(format!("mask {mask}: {name} on sealed token {i}: {e}")),
+                            Err(e) if e == "REQUEST-GRANTED" => problems.push(format!("mask {mask}: third-party request on sealed token {i} (unverified={unv}) succeeded")),
                             Err(_) => {}
                         }
                     }
